@@ -147,7 +147,7 @@ def absent_only_if_not_found(ctx, p):
                         kinds = lib.errkind_guarded(b, bi)
                         ctx.ob(p + 'a absent-only-on-NotFound %s' % fn, 'K3-guard', fn,
                                'open_existing answers "no such table" only on the NotFound outcome of opening the file (an existing file of any length is opened)',
-                               bool(kinds) and kinds <= {'NotFound', '?'}, 'Ok(None) returned %s' % ('on error kinds %s' % sorted(kinds) if kinds else 'without looking at the error kind of File::open'), b.loc(bi))
+                               kinds == {'NotFound'}, 'Ok(None) returned %s' % ('on error kinds %s' % sorted(kinds) if kinds else 'without looking at the error kind of File::open'), b.loc(bi))
     ctx.ob(p + 'b absent-sites', 'anchor', '-', 'both open_existing functions have an Ok(None) exit', n >= 2, 'found %d' % n)
 
 
